@@ -258,7 +258,14 @@ pub fn probe_query_singletons(sim: &mut Sim) {
         (json!({"get_version_info": {}}), b"version_info".as_slice()),
     ] {
         let got = sim.chain.query(&q);
-        let want = raw_json(key, sim);
+        // a record is "stored" for this purpose only if it is a complete record of its format;
+        // anything else is unreadable and the query has to fail
+        let complete = if key == b"version_info" {
+            book::read_version(&sim.chain.storage).is_some()
+        } else {
+            book::read_cfg(&sim.chain.storage).is_ok()
+        };
+        let want = if complete { raw_json(key, sim) } else { None };
         let mut h = Fnv::new();
         h.str(&q.to_string()).u64(want.is_some() as u64);
         sim.cov.hit("C16", h.finish(), true);
